@@ -352,6 +352,22 @@ class Kernel(object):
                 p.hb = self.clock - p.lag
                 p.mode = ev[2]
                 self.trace.append(("hang", p.pid, ev[2], round(self.clock, 2)))
+        elif kind == "coalesced":
+            # a non-worker child of the master (started by a hook) and a worker die together: one SIGCHLD for both
+            hp = Proc(self.next_pid, -1, self.clock)
+            self.next_pid += 1
+            hp.state = "zombie"
+            hp.status = ev[2]
+            hp.mode = "helper"
+            self.procs[hp.pid] = hp
+            self.trace.append(("helper-died", hp.pid, round(self.clock, 2)))
+            if live:
+                p = live[ev[1] % len(live)]
+                p.state = "zombie"
+                p.status = ev[2]
+                p.hb = self.heartbeat_frozen(p)
+                self.trace.append(("died", p.pid, ev[2], round(self.clock, 2)))
+            self.deliver(real_signal.SIGCHLD)
         elif kind == "tick":
             pass
 
